@@ -95,10 +95,12 @@ func txts(ss ...string) []Txt {
 type OptNode struct {
 	Short     string   `json:"short,omitempty"` // one character or ""
 	Long      string   `json:"long,omitempty"`
-	Kind      string   `json:"kind"`            // flag counter ptrflag scalar slice map ptr func0 func1
-	VType     string   `json:"vtype"`           // string int int8 ... uint64 float32 float64 duration um bool
-	KType     string   `json:"ktype,omitempty"` // maps: key type ("" = string)
-	Param     string   `json:"param,omitempty"` // func1: "" the parameter is a scalar; "slice" []T; "map" map[string]T; "ptr" *T
+	Kind      string   `json:"kind"`               // flag counter ptrflag scalar slice map ptr func0 func1
+	VType     string   `json:"vtype"`              // string int int8 ... uint64 float32 float64 duration um bool
+	KType     string   `json:"ktype,omitempty"`    // maps: key type ("" = string)
+	ReqField  bool     `json:"reqField,omitempty"` // the option is made required through its public Required field after construction (no required tag)
+	ErrPtr    bool     `json:"errPtr,omitempty"`   // callbacks: the func type returns *flags.Error (a nil one); the library looks at results of type error only
+	Param     string   `json:"param,omitempty"`    // func1: "" the parameter is a scalar; "slice" []T; "map" map[string]T; "ptr" *T
 	Base      int      `json:"base,omitempty"`
 	Optional  bool     `json:"optional,omitempty"`
 	OptVals   []string `json:"optvals,omitempty"`
